@@ -8,6 +8,7 @@ and the packets / joins / leaves handed to zigpy are compared field by field.
 from __future__ import annotations
 
 import itertools
+import asyncio
 import struct
 
 from mc import explore, report
@@ -55,12 +56,15 @@ def enc_incoming(version, mtype, c):
     else:
         body = bytes([mtype]) + enc_aps(c) + bytes([c["lqi"]]) + struct.pack("<b", c["rssi"]) + struct.pack("<H", c["sender"]) \
             + bytes([c["binding"], c["address"], len(msg)]) + msg
-    return ezspenv.enc_response_hdr(version, 0xF3, ID_INCOMING, callback=True) + body
+    return ezspenv.enc_response_hdr(version, c.get("hdr_seq", 0xF3), ID_INCOMING, callback=True) + body
+
+
+HDR_SEQ = [0xF3]     # sequence byte carried by the trust-centre join frames (changed by the same-object reset scenario)
 
 
 def enc_join(version, nwk, ieee, status, decision, parent):
     body = struct.pack("<H", nwk) + ieee + bytes([status, decision]) + struct.pack("<H", parent)
-    return ezspenv.enc_response_hdr(version, 0xF3, ID_TCJOIN, callback=True) + body
+    return ezspenv.enc_response_hdr(version, HDR_SEQ[0], ID_TCJOIN, callback=True) + body
 
 
 class Ctx:
@@ -287,12 +291,59 @@ def reconnect_job(seq):
     return n, viol
 
 
+def same_object_reset_job(version):
+    """A command times out (its entry stays behind in the old protocol handler), the NCP is reset and the version re-negotiated
+    on the SAME EZSP object (ControllerApplication._reset), then callbacks arrive that carry the timed-out command's sequence
+    byte: pending-command state of the old session must not swallow them."""
+    import logging
+
+    logging.disable(logging.CRITICAL)
+    viol = []
+    n = 0
+    ctx = Ctx(version)
+    try:
+        sw = getattr(ctx.ezsp, "_switch_protocol_version", None)
+        if sw is None:
+            return 0, []
+        ctx.ncp.handlers["getNodeId"] = lambda a: None          # never answered
+        task = ctx.loop.create_task(ctx.ezsp.getNodeId())
+        ctx.loop.run_until_idle(horizon=ctx.loop.time() + 120.0)
+        if not task.done() or task.cancelled() or not isinstance(task.exception(), asyncio.TimeoutError):
+            return 0, [("C13|same-object-reset|setup", f"v{version}: an unanswered command did not time out", {"world": "c13", "kind": "same-object-reset", "version": version})]
+        stale_seq = ctx.gw.sent[-1][1][0]
+        sw(4)
+        sw(version)
+        ctx.ncp.framing = version
+        base = {k: v[0] for k, v in FIELDS.items()}
+        base["hdr_seq"] = stale_seq
+        for mtype in TYPES:
+            n += 1
+            m = check_incoming(ctx, mtype, dict(base))
+            if m:
+                viol.append(("C13|same-object-reset|incoming", f"v{version}, after a timed-out command and a reset + re-negotiation on the same EZSP object, "
+                             f"callback carrying the old command's sequence byte, type {mtype}: {m}", {"world": "c13", "kind": "same-object-reset", "version": version}))
+                break
+        HDR_SEQ[0] = stale_seq
+        try:
+            m = check_joins(ctx, [(0x0001, bytes([1, 0, 0, 0, 0, 0, 0, 0]), 1, 0, 0x1234)])
+        finally:
+            HDR_SEQ[0] = 0xF3
+        n += 1
+        if m:
+            viol.append(("C13|same-object-reset|join", f"v{version}, after a timed-out command and a reset + re-negotiation on the same EZSP object: {m}",
+                         {"world": "c13", "kind": "same-object-reset", "version": version}))
+    finally:
+        ctx.close()
+    return n, viol
+
+
 RECONNECT_SEQS = [(13, 14, 13), (14, 13), (4, 14, 8), (8, 9), (14, 14, 4), (12, 14)]
 
 
 def main(tier: str) -> int:
     rep = report.Report("C13", tier, "exploration")
     rec = explore.pool().map(reconnect_job, RECONNECT_SEQS + ([(a, b) for a in range(4, 15) for b in range(4, 15) if a != b] if tier != "quick" else []))
+    rec += explore.pool().map(same_object_reset_job, list(ezspenv.VERSIONS))
     results = sorted(explore.pool().imap_unordered(job, [(v, tier) for v in ezspenv.VERSIONS], chunksize=1), key=lambda r: r[0])
     total = packets = 0
     for n, viol in rec:
@@ -326,7 +377,12 @@ def main(tier: str) -> int:
 
 
 def replay(data) -> int:
-    ctx = Ctx(data["version"])
+    if data["kind"] == "same-object-reset":
+        n, viol = same_object_reset_job(data["version"])
+        for v in viol:
+            print("VIOLATION:", v[1])
+        return 1 if viol else 0
+    ctx = Ctx(data.get("version", 8))
     if data["kind"] == "reconnect":
         ctx.close()
         n, viol = reconnect_job(tuple(data["versions"]))
